@@ -1,9 +1,253 @@
-/- Driver handlers, group Circuit (stub; filled in by the group's model). -/
+/-
+  Driver handlers, group Circuit (C07, C02, C19): constructors, Circuit.__post_init__,
+  transform_circuit / per-component translators, the intended phasor network (Spec),
+  DC / complex solution wrappers, generate_component / undictify_circuit, elm.load,
+  periodic_function.
+
+  JSON: a value is {"n": rat} | {"s": string} | {"c": [re, im]}; a value dictionary is an
+  array of [key, value] pairs (order preserved); a component is
+  {"kind","id","nodes":[…],"value":[[k,v],…]}.
+  `trig` is an array of [phi, cos, sin]; `harm` an array of [wavetype, A, phi, n, amp, phase].
+-/
 import CC.Driver.Json
 import CC.Driver.LinAlg
+import CC.Model.Circuit
+import CC.Spec.Phasor
+namespace CC.DCirc
+open Lean CC
+
+def getVal (j : Json) : Except String Val := do
+  match j.getObjVal? "n" with
+  | .ok v => pure (.num (← getRat v))
+  | .error _ =>
+    match j.getObjVal? "s" with
+    | .ok v => pure (.str (← v.getStr?))
+    | .error _ =>
+      match j.getObjVal? "c" with
+      | .ok (.arr #[a, b]) => pure (.cplx (← getRat a) (← getRat b))
+      | _ => throw "bad value"
+
+def jsonVal : Val → Json
+  | .num q => Json.mkObj [("n", jsonRat q)]
+  | .str s => Json.mkObj [("s", Json.str s)]
+  | .cplx a b => Json.mkObj [("c", Json.arr #[jsonRat a, jsonRat b])]
+
+def getPairs (j : Json) : Except String (List (String × Val)) := do
+  let a ← j.getArr?
+  a.toList.mapM fun p =>
+    match p with
+    | .arr #[k, v] => do pure (← k.getStr?, ← getVal v)
+    | _ => throw "bad [key, value] pair"
+
+def jsonPairs (l : List (String × Val)) : Json :=
+  Json.arr (l.map fun kv => Json.arr #[Json.str kv.1, jsonVal kv.2]).toArray
+
+def getStrs (j : Json) : Except String (List String) := do
+  (← j.getArr?).toList.mapM (·.getStr?)
+
+def getComponent (j : Json) : Except String Component := do
+  pure { kind := ← getStr j "kind", id := ← getStr j "id", nodes := ← getStrs (← j.getObjVal? "nodes"),
+         value := ← getPairs (← j.getObjVal? "value") }
+
+def jsonComponent (c : Component) : Json :=
+  Json.mkObj [("kind", c.kind), ("id", c.id), ("nodes", jsonStrs c.nodes), ("value", jsonPairs c.value)]
+
+def getComponents (j : Json) : Except String (List Component) := do
+  (← getArr j "components").toList.mapM getComponent
+
+/-- `trig` table ↦ function; a phase that the harness did not supply yields a sentinel that
+cannot agree with anything -/
+def getTrig (j : Json) : Except String Trig := do
+  match j.getObjVal? "trig" with
+  | .error _ => pure fun _ => (7777, 7777)
+  | .ok t =>
+    let rows ← (← t.getArr?).toList.mapM fun r =>
+      match r with
+      | .arr #[p, c, s] => do pure (← getRat p, (← getRat c, ← getRat s))
+      | _ => throw "bad trig row"
+    pure fun phi => (rows.lookup phi).getD (7777, 7777)
+
+def getHarm (j : Json) : Except String Harm := do
+  match j.getObjVal? "harm" with
+  | .error _ => pure fun _ _ _ _ => (7777, 7777)
+  | .ok t =>
+    let rows ← (← t.getArr?).toList.mapM fun r =>
+      match r with
+      | .arr #[wt, a, p, n, amp, ph] => do
+        pure ((← wt.getStr?, ← getRat a, ← getRat p, ← n.getInt?), (← getRat amp, ← getRat ph))
+      | _ => throw "bad harm row"
+    pure fun wt a p n => (rows.lookup (wt, a, p, n)).getD (7777, 7777)
+
+def optStr (j : Json) (k : String) : Except String (Option String) :=
+  match j.getObjVal? k with
+  | .ok .null => pure none
+  | .ok v => do pure (some (← v.getStr?))
+  | .error _ => pure none
+
+def optStrs (j : Json) (k : String) : Except String (Option (List String)) :=
+  match j.getObjVal? k with
+  | .ok .null => pure none
+  | .ok v => do pure (some (← getStrs v))
+  | .error _ => pure none
+
+def jsonTable (t : List (String × String)) : Json :=
+  Json.arr (t.map fun kv => Json.arr #[Json.str kv.1, Json.str kv.2]).toArray
+
+def cmpTag : Cmp → String
+  | .lt => "<" | .le => "<=" | .gt => ">" | .ge => ">=" | .eq => "==" | .ne => "!="
+
+/-- op `cc_tables`: the generated tables, for a sanity comparison with the live objects -/
+def h_tables : Handler := fun _ => do
+  let T := Gen.tables
+  pure (Json.mkObj [
+    ("transformers", jsonTable T.transformers),
+    ("loaders", jsonTable T.loaders),
+    ("network_branch_translators", jsonTable Gen.networkBranchTranslators),
+    ("waves", jsonStrs T.waves),
+    ("element_handlers", jsonTable Gen.elementHandlers),
+    ("schematic_solutions", jsonTable Gen.schematicSolutions),
+    ("w_resolution", jsonRat Gen.defaultWRes),
+    ("w_resolution_transform", jsonRat Gen.defaultWResTransform),
+    ("ctors", Json.arr (T.ctors.map fun s => Json.mkObj [
+      ("fn", s.fn), ("kind", s.kind),
+      ("params", Json.arr (s.params.map fun p => Json.mkObj [("name", p.1),
+        ("ty", match p.2.1 with | .real => "real" | .cplx => "cplx" | .str => "str"),
+        ("default", match p.2.2 with | some v => jsonVal v | none => Json.null)]).toArray),
+      ("guards", Json.arr (s.guards.map fun g => Json.arr #[Json.str g.param, Json.str (cmpTag g.cmp),
+        jsonRat g.bound, Json.str g.exc]).toArray),
+      ("keys", jsonStrs (s.values.map (·.1)))]).toArray),
+    ("translators", Json.arr (T.trans.map fun s => Json.mkObj [("fn", s.fn), ("reads", jsonStrs s.reads)]).toArray)])
+
+/-- op `cc_construct`: one constructor call -/
+def h_construct : Handler := fun j => do
+  let fn ← getStr j "fn"
+  let id ← optStr j "id"
+  let nodes ← optStrs j "nodes"
+  let args ← getPairs (← j.getObjVal? "args")
+  match Gen.tables.ctor? fn with
+  | none => throw s!"no constructor {fn}"
+  | some s => pure (jsonExcept jsonComponent (s.construct id nodes args))
+
+/-- op `cc_circuit`: `Circuit(components)` -/
+def h_circuit : Handler := fun j => do
+  let cs ← getComponents j
+  pure (jsonExcept (fun C => Json.mkObj [("ground", Json.str C.ground),
+    ("components", Json.arr (C.components.map jsonComponent).toArray)]) (Circuit.mk? cs))
+
+/-- op `cc_transform1`: one translator call through the table -/
+def h_transform1 : Handler := fun j => do
+  let c ← getComponent (← j.getObjVal? "component")
+  let w ← getRatK j "w"
+  let wres ← getRatK j "wres"
+  let trig ← getTrig j
+  let harm ← getHarm j
+  match transformComponent Gen.tables trig harm c w wres with
+  | none => pure (Json.mkObj [("none", true)])
+  | some r => pure (jsonExcept jsonBranch r)
+
+/-- op `cc_transform`: `transform_circuit(Circuit(components), w, w_resolution)` -/
+def h_transform : Handler := fun j => do
+  let cs ← getComponents j
+  let w ← getRatK j "w"
+  let wres ← getRatK j "wres"
+  let trig ← getTrig j
+  let harm ← getHarm j
+  let r : Except Err (Net String GQ) := do
+    let C ← Circuit.mk? cs
+    transformCircuit Gen.tables trig harm C w wres
+  pure (jsonExcept jsonNet r)
+
+/-- op `cc_spec_net`: the intended phasor network (CC/Spec/Phasor.lean), per component and
+as a whole -/
+def h_specNet : Handler := fun j => do
+  let cs ← getComponents j
+  let w ← getRatK j "w"
+  let wres ← getRatK j "wres"
+  let trig ← getTrig j
+  let harm ← getHarm j
+  let per := (Spec.nonGround cs).map fun c =>
+    match Spec.branchOf trig harm c w wres with
+    | some b => Json.mkObj [("id", c.id), ("kind", c.kind), ("branch", jsonBranch b)]
+    | none => Json.mkObj [("id", c.id), ("kind", c.kind), ("branch", Json.null)]
+  let whole := match Spec.phasorNet trig harm cs w wres with
+    | some N => jsonNet N
+    | none => Json.null
+  let g := match Spec.groundOf cs with
+    | some g => Json.str g
+    | none => Json.null
+  pure (Json.mkObj [("branches", Json.arr per.toArray), ("net", whole), ("ground", g)])
+
+def getQuantity (s : String) : Except String Quantity :=
+  if s = "potential" then pure .potential else if s = "voltage" then pure .voltage
+  else if s = "current" then pure .current else throw s!"bad quantity {s}"
+
+def jsonExceptRat (r : Except Err Rat) : Json := jsonExcept jsonRat r
+
+/-- op `cc_solution`: DCSolution / ComplexSolution accessors on a solved network
+(`mode` = "dc" | "rms" | "peak"; `x` = the solver's vector; `r2` = np.sqrt(2)) -/
+def h_solution : Handler := fun j => do
+  let N ← getNet (← j.getObjVal? "net")
+  let x ← getVec (← j.getObjVal? "x")
+  let mode ← getStr j "mode"
+  let r2 ← getRatK j "r2"
+  let extraIds := match j.getObjVal? "ids" with
+    | .ok v => (getStrs v).toOption.getD []
+    | .error _ => []
+  let labels := N.nodeLabels ++ extraIds
+  let ids := N.branches.map (·.id) ++ extraIds
+  if mode = "dc" then
+    pure (Json.mkObj [
+      ("pot", Json.mkObj (labels.map fun n => (n, jsonExceptRat (dcGet N x .potential n)))),
+      ("v", Json.mkObj (ids.map fun n => (n, jsonExceptRat (dcGet N x .voltage n)))),
+      ("i", Json.mkObj (ids.map fun n => (n, jsonExceptRat (dcGet N x .current n)))),
+      ("p", Json.mkObj (ids.map fun n => (n, jsonExceptRat (dcPower N x n))))])
+  else
+    let peak := mode = "peak"
+    pure (Json.mkObj [
+      ("pot", Json.mkObj (labels.map fun n => (n, jsonExcept jsonGQ (cxGet peak r2 N x .potential n)))),
+      ("v", Json.mkObj (ids.map fun n => (n, jsonExcept jsonGQ (cxGet peak r2 N x .voltage n)))),
+      ("i", Json.mkObj (ids.map fun n => (n, jsonExcept jsonGQ (cxGet peak r2 N x .current n)))),
+      ("p", Json.mkObj (ids.map fun n => (n, jsonExcept jsonGQ (cxPower peak r2 N x n))))])
+
+def getDesc (j : Json) : Except String Desc := do
+  let value ← match j.getObjVal? "value" with
+    | .ok .null => pure none
+    | .ok v => do pure (some (← getPairs v))
+    | .error _ => pure none
+  pure { id := ← optStr j "id", type := ← optStr j "type", nodes := ← optStrs j "nodes", value := value }
+
+/-- op `cc_generate`: `generate_component(entry)` -/
+def h_generate : Handler := fun j => do
+  let d ← getDesc (← j.getObjVal? "desc")
+  pure (jsonExcept jsonComponent (generateComponent Gen.tables d))
+
+/-- op `cc_undictify`: `undictify_circuit({'components': […]})` -/
+def h_undictify : Handler := fun j => do
+  let ds ← (← getArr j "descs").toList.mapM getDesc
+  pure (jsonExcept (fun C => Json.mkObj [("ground", Json.str C.ground),
+    ("components", Json.arr (C.components.map jsonComponent).toArray)]) (undictifyCircuit Gen.tables ds))
+
+/-- op `cc_load`: `elm.load(name, P, V_ref, I_ref, Q)` -/
+def h_load : Handler := fun j => do
+  pure (jsonExcept jsonElem (elmLoad (← getRatK j "P") (← getRatK j "V_ref") (← getRatK j "I_ref") (← getRatK j "Q")))
+
+/-- op `cc_periodic_function`: the wavetype lookup -/
+def h_periodicFunction : Handler := fun j => do
+  pure (jsonExcept Json.str (periodicFunction Gen.tables.waves (← getStr j "name")))
+
+/-- op `cc_network`: `Network(branches, zero)` construction check -/
+def h_network : Handler := fun j => do
+  let N ← getNet (← j.getObjVal? "net")
+  pure (jsonExcept (fun _ => Json.mkObj [("labels", jsonStrs N.nodeLabels)]) N.check)
+
+def handlers : List (String × Handler) :=
+  [("cc_tables", h_tables), ("cc_construct", h_construct), ("cc_circuit", h_circuit),
+   ("cc_transform1", h_transform1), ("cc_transform", h_transform), ("cc_spec_net", h_specNet),
+   ("cc_solution", h_solution), ("cc_generate", h_generate), ("cc_undictify", h_undictify),
+   ("cc_load", h_load), ("cc_periodic_function", h_periodicFunction), ("cc_network", h_network)]
+
+end CC.DCirc
+
 namespace CC
-open Lean
-
-def handlersCircuit : List (String × Handler) := []
-
+def handlersCircuit : List (String × Handler) := DCirc.handlers
 end CC
